@@ -26,6 +26,16 @@ claimed = {
   text="rapid generates modules of packages with random directory trees and //go:embed lines; the real LoadDirectives/ResolvePatterns/ParsePatterns are compared with the reference toolchain's view of the same directory: pattern list, embedded file set, bytes, accept/reject. Exploration only; the compiled embed.FS/string/[]byte delivery is covered by the compiled-program part when built.",
   note="go list / go build of go1.24 are the reference; errors compared as accept/reject; '//go:embed<TAB>' is not generated because go/build and the gc compiler disagree about it.",
   design="§3 C16"),
+ "C07": dict(
+  technique="property-based testing (rapid): differential of the descriptor-naming function against go/types.Identical over generated type pools with one-attribute near-miss mutants",
+  text="rapid generates multi-package Go source (named/alias/generic/interface declarations, composite type expressions, copies in other packages, near-miss mutants, equal-named local types), type-checks it in-process and compares, for every pair, equality of abi.Builder.TypeName (the link name that makes two run-time descriptors one) with types.Identical, in both directions. Exploration only.",
+  note="go/types.Identical is trusted as the reference; the in-process part covers the naming function, not yet the compiled assertion/type-switch/reflect paths; three genuine findings are listed in known_findings.json and excluded by key.",
+  design="§3 C07"),
+ "C02": dict(
+  technique="differential testing with generated operands (rapid) and exhaustive 8-bit enumeration: llgo-compiled operator table vs the same functions executed natively",
+  text="A fixed, import-free program with one function per operator/type/conversion/constant-operand combination (4086 functions) is compiled by the llgo under test at O0, O2, Oz and O2+nogc (thorough: also O1/O3/Os, O0+nogc) and driven over a pipe; the same package linked into the gc-compiled harness is the oracle. rapid draws boundary-biased operand tuples with shrinking; all 8-bit operand pairs (and 16-bit unary/conversion inputs) are enumerated exhaustively. Exploration for 32/64-bit operands, exhaustive for the 8-bit sub-space.",
+  note="gc (go1.24/amd64) defines the expected values; out-of-range float->int conversions excluded; NaN equals NaN; complex64 * and / compared with a stated tolerance; LLVM 14 instead of the LLVM 19 llgo ships with.",
+  design="§3 C02"),
 }
 not_yet = "check not built yet in this session (see DESIGN.md §3 for the planned generated-input check)"
 
